@@ -26,6 +26,51 @@ func init() {
 	}
 	extraApply["Stats"] = func(s *Sess, op *Op, out *Outcome) []ExpEvent { return nil }
 	extraGen["Stats"] = func(g *Gen) *Op { return &Op{K: "Stats"} }
+	// DumpJSON: a save - the entity dump and some handles go through encoding/json and come back unchanged
+	extraCalls["DumpJSON"] = func(s *Sess, op *Op, out *Outcome) {
+		d := s.W.DumpEntities()
+		js, err := json.Marshal(&d)
+		var back ecs.EntityDump
+		if err != nil || json.Unmarshal(js, &back) != nil {
+			s.fail("json.dump", "dump does not survive JSON: %v", err)
+			return
+		}
+		if fmt.Sprint(back.Entities) != fmt.Sprint(d.Entities) || back.Next != d.Next || back.Available != d.Available || (len(d.Alive) > 0 && fmt.Sprint(back.Alive) != fmt.Sprint(d.Alive)) {
+			s.fail("json.dump", "dump changed by a JSON round trip: %s", js)
+			return
+		}
+		hs := s.M.AliveSorted()
+		if len(hs) > 8 {
+			hs = hs[:8]
+		}
+		// (handles as values inside a map: the shape a save file of a program has)
+		doc := map[string]ecs.Entity{}
+		for i, h := range hs {
+			doc[fmt.Sprint(i)] = h
+		}
+		js2, err := json.Marshal(doc)
+		back2 := map[string]ecs.Entity{}
+		if err != nil || json.Unmarshal(js2, &back2) != nil || fmt.Sprint(back2) != fmt.Sprint(doc) {
+			s.fail("json.handle", "entity handles changed by a JSON round trip: %s (%v)", js2, err)
+			return
+		}
+		s.trace("dumpjson", len(js), len(js2))
+	}
+	extraApply["DumpJSON"] = func(s *Sess, op *Op, out *Outcome) []ExpEvent { return nil }
+	extraGen["DumpJSON"] = func(g *Gen) *Op {
+		if g.S.open > 0 {
+			return nil
+		}
+		return &Op{K: "DumpJSON"}
+	}
+	// SetDispatchTrace installs a Dispatch whose members write every delivery into the transcript
+	extraCalls["SetDispatchTrace"] = func(s *Sess, op *Op, out *Outcome) {
+		l := s.buildListener(op.Lsn, func(path []int, w *ecs.World, e ecs.EntityEvent) {
+			s.trace("deliver", fmt.Sprint(path), e.Entity, uint8(e.EventTypes))
+		})
+		s.W.SetListener(l)
+	}
+	extraApply["SetDispatchTrace"] = func(s *Sess, op *Op, out *Outcome) []ExpEvent { return nil }
 	// GFRegDrop: a generic filter is registered and the filter object is dropped without Unregister (the
 	// registration stays; nothing may depend on when the collector notices the dropped object)
 	extraCalls["GFRegDrop"] = func(s *Sess, op *Op, out *Outcome) {
@@ -75,6 +120,7 @@ func caseC13(c *Ctx) {
 	p.Scale(3, "BuilderNew", "RelSet", "RemoveEntity", "QueryCheck", "NewBatch", "BatchSetRel", "BatchRemoveEntities")
 	p.Scale(2, "CacheRegister")
 	p.W["Dump"] = 4
+	p.W["DumpJSON"] = 2
 	p.W["Stats"] = 4
 	if c.Case%3 == 0 {
 		p.W["GFRegDrop"] = 3
@@ -109,8 +155,18 @@ func caseC13(c *Ctx) {
 		p.Scale(3, "NewEntity", "RemoveEntity", "NewBatch", "BatchRemoveEntities")
 		p.Zero("Reset")
 	}
-	a := NewSess(cfg, Opts{Events: true, Track: true})
+	// every fifth case: the listener is a Dispatch of differently restricted callbacks that all write into the
+	// transcript - the order in which the members of one Dispatch are called for one event is part of the sequence
+	disp := c.Case%5 == 1
+	a := NewSess(cfg, Opts{Events: !disp, Track: true})
 	g := NewGen(c.R, a, p)
+	if disp {
+		used := a.Cfg.Used
+		spec := &LsnSpec{Disp: []LsnSpec{{Subs: 63}, {Subs: 63, Comps: []int{used[0]}}, {Subs: 63, Comps: []int{used[1%len(used)]}},
+			{Subs: 1 | 4, Comps: []int{used[0], used[2%len(used)]}}, {Subs: 63, Comps: []int{used[len(used)-1]}}, {Subs: 63, Comps: []int{used[1%len(used)]}}}}
+		a.Do(&Op{K: "SetDispatchTrace", Lsn: spec})
+		a.Cov.N["dispatch_member_order_in_transcript"]++
+	}
 	if shared != nil {
 		k := *shared
 		a.kept = &k
@@ -185,7 +241,7 @@ func caseC13(c *Ctx) {
 	} else {
 		close(done)
 	}
-	b := NewSess(a.Cfg0, Opts{Events: true})
+	b := NewSess(a.Cfg0, Opts{Events: !disp})
 	if shared != nil {
 		k := *shared
 		b.kept = &k
